@@ -212,3 +212,46 @@ package fs
 //@   ensures [C17] cur: err == nil && whence == 1 ==> pos == old(f.offset) + offset && f.offset == pos
 //@   ensures [C17] end: err == nil && whence == 2 ==> pos == f.memFile.size + offset && f.offset == pos
 //@   modifies f.offset
+
+// ---- fs/os_mmap.go: the mapping always covers the file -------------------------------------------------------
+// The system calls are outside the contracts (ASSUMED, listed as trusted): a successful mmap of n > 0 bytes returns
+// n bytes; mapping zero bytes is an error of the caller. Whether the mapping is coherent with later pwrite calls is
+// not modelled.
+//@ func mmap(f *os.File, fileSize int64, mappingSize int64) (data []byte, err error) [C17]
+//@   trusted system call
+//@   requires positive: mappingSize > 0
+//@   ensures mapped: err == nil ==> len(data) == int(mappingSize) && fresh(data) && arr(data) != 0
+//@ func munmap(data []byte) (err error) [C17]
+//@   trusted system call
+//@   pure
+//@ func madviceRandom(data []byte) (err error) [C17]
+//@   trusted system call
+//@   requires nonempty: len(data) > 0
+//@   pure
+
+// representation invariant of a mapped file: the mapping is as long as mmapSize says
+//@ spec func mmapInv(f *osMMapFile) bool = f != nil && f.size >= 0 && f.mmapSize >= 0 && len(f.data) == int(f.mmapSize) && f.size <= 0x800000000000 && (f.mmapSize == 0 ==> arr(f.data) == 0)
+
+//@ func (f *osMMapFile) munmap() (err error) [C17]
+//@   requires inv: mmapInv(f)
+//@   ensures unmapped: err == nil ==> f.mmapSize == 0 && len(f.data) == 0 && arr(f.data) == 0 && f.size == old(f.size)
+//@   ensures failed: err != nil ==> f.mmapSize == old(f.mmapSize) && f.data == old(f.data) && f.size == old(f.size)
+//@   modifies f.data, f.mmapSize
+
+//@ func (f *osMMapFile) mmap(fileSize int64, mappingSize int64) (err error) [C17]
+//@   requires positive: f != nil && mappingSize > 0 && mappingSize <= 0x1000000000000
+//@   ensures mapped: err == nil ==> len(f.data) == int(mappingSize) && arr(f.data) != 0
+//@   modifies f.data
+
+// after a successful mremap the mapping covers the whole file: a Slice inside the file never reaches past it
+//@ func (f *osMMapFile) mremap() (err error) [C17]
+//@   requires inv: mmapInv(f)
+// (a file never more than doubles in one step beyond its mapping: pogreb grows files by at most one record)
+//@   requires growth: (f.mmapSize == 0 || f.size <= 2 * f.mmapSize) && f.mmapSize <= 0x800000000000
+//@   ensures [C17] covers: err == nil ==> mmapInv(f) && f.mmapSize >= f.size && f.size == old(f.size)
+//@   modifies f.data, f.mmapSize
+
+//@ func (f *osMMapFile) Slice(start int64, end int64) (s []byte, err error) [C17]
+//@   requires inv: mmapInv(f) && f.mmapSize >= f.size && 0 <= start && start <= end
+//@   ensures [C17] eof: end > f.size ==> err == io.EOF
+//@   ensures [C17] view: err == nil ==> end <= f.size && len(s) == int(end - start) && arr(s) == arr(f.data) && off(s) == off(f.data) + int(start)
